@@ -27,7 +27,7 @@ __all__ = [
 PAGE_SIZE = 64 * 1024  # 64 KiB
 hex_prog = re.compile(r"-?0x[0-9a-fA-F]+")
 hex_float_prog = re.compile(r"[-+]?0x[0-9a-fA-F]+")
-hex_nan_prog = re.compile(r"[-+]?nan:.+")
+nan_prog = re.compile(r"[-+]?nan(:0x[0-9a-fA-F_]+)?$")
 
 
 def is_int(s):
@@ -62,15 +62,50 @@ def make_int(s, bits=None):
     return v
 
 
-def make_float(s):
-    """Try to make an integer"""
+def nan_to_text(x, bits):
+    """Spell a NaN as [-]nan or [-]nan:0x<payload> for an f32 or f64 constant."""
+    if bits == 32:
+        raw = getattr(x, "raw32", None) or struct.pack("<f", x)
+        value, nbits = struct.unpack("<I", raw)[0], 23
+    else:
+        value, nbits = struct.unpack("<Q", struct.pack("<d", x))[0], 52
+    sign = "-" if value >> (bits - 1) else ""
+    payload = value & ((1 << nbits) - 1)
+    if payload == 1 << (nbits - 1):  # the canonical NaN
+        return sign + "nan"
+    return f"{sign}nan:0x{payload:x}"
+
+
+def nan_from_text(s, bits):
+    """Create the NaN spelled [+-]nan[:0x<payload>] for an f32 or f64 constant."""
+    nbits, exponent = (23, 0xFF) if bits == 32 else (52, 0x7FF)
+    sign = 1 if s.startswith("-") else 0
+    payload = 1 << (nbits - 1)
+    if ":" in s:
+        payload = int(s.split(":", 1)[1].replace("_", ""), 16)
+        if not 0 < payload < (1 << nbits):
+            raise ValueError(f"Invalid NaN payload: {s}")
+    value = (sign << (bits - 1)) | (exponent << nbits) | payload
+    if bits == 32:
+        raw = struct.pack("<I", value)
+        x = struct.unpack("<f", raw)[0]
+        if struct.pack("<f", x) != raw:  # signalling NaN: keep the bits
+            from .components import F32Bits
+
+            x = F32Bits(x, raw)
+        return x
+    return struct.unpack("<d", struct.pack("<Q", value))[0]
+
+
+def make_float(s, bits=64):
+    """Try to make a float"""
     if isinstance(s, float):
         return s
     elif isinstance(s, int):
         return float(s)
     elif isinstance(s, str):
-        if hex_nan_prog.match(s):
-            return math.nan
+        if nan_prog.match(s):
+            return nan_from_text(s, bits)
         elif hex_float_prog.match(s):
             return float.fromhex(s.replace("_", ""))
         else:
